@@ -16,5 +16,6 @@ ExtOps == {"crop_lms", "crop_true_mask", "rescale_derived", "pyramid", "about", 
 \* extended families after one framing operation (so that they start from a non-trivial registration state)
 MixOps == ExtOps \cup {"rescale", "crop", "mirror"}
 QuickMixOps == ExtOps \cup {"crop"}
+FullMaskOps == {"fullmask", "rotate", "about", "warp", "warp_order0", "crop", "rescale", "zoom", "warp_mask"}
 Sh68 == <<6, 8>>
 =============================================================================
